@@ -616,13 +616,13 @@ Lemma find_while_step_name : forall fuel search c kids query log,
 Proof. intros fuel search c kids query log H. simpl. rewrite H. reflexivity. Qed.
 
 (* from the loop to find_view *)
-Lemma find_view_of_while : forall q m r log res,
+Lemma find_view_of_while : forall root q m r log res,
     q <> [] ->
-    find_while (S (List.length q)) q None (CList (annotate m)) q [] = Ok (r, log) ->
+    find_while (S (List.length q)) q None (CList (annotate_at root m)) q [] = Ok (r, log) ->
     option_map node_view r = res ->
-    find_view q m = Ok res.
+    find_view_at root q m = Ok res.
 Proof.
-  intros q m r log res Hq Hw Hr. unfold find_view, find_in_ast, find_in_ast_log.
+  intros root q m r log res Hq Hw Hr. unfold find_view_at, find_in_ast, find_in_ast_log.
   destruct q as [|x q']; [contradiction|]. rewrite Hw. simpl.
   destruct r as [n|]; simpl in *; [rewrite node_view_apply_dlog|]; subst; reflexivity.
 Qed.
@@ -637,21 +637,21 @@ Proof.
   destruct (existsb (func_has_posarg y) (before_member y b)); [discriminate|]. split; reflexivity.
 Qed.
 
-Lemma c15_depth1 : forall m x, leaf_lookup_class x m = None -> find_view [x] m = Ok (resolve [x] m).
+Lemma c15_depth1 : forall root m x, leaf_lookup_class x m = None -> find_view_at root [x] m = Ok (resolve_at root [x] m).
 Proof.
-  intros m x H. destruct (leaf_lookup_facts _ _ H) as [Hok Hf].
-  unfold before_member in Hf. unfold resolve. rewrite resolve_body_split.
+  intros root m x H. destruct (leaf_lookup_facts _ _ H) as [Hok Hf].
+  unfold before_member in Hf. unfold resolve_at. rewrite resolve_body_split.
   destruct (split_member x m) as [[[pre t] post]|] eqn:Hs.
-  - apply find_view_of_while with (r := Some (NStmt (annotate_stmt [] [List.length pre] t))) (log := []).
+  - apply find_view_of_while with (r := Some (NStmt (annotate_stmt [] (root ++ [List.length pre]) t))) (log := []).
     + discriminate.
-    + simpl List.length. rewrite find_while_step_none. unfold annotate, annotate_at.
-      pose proof (leaf_found [] [] 0 m x pre t post (CList (annotate_body [] [] 0 m)) None [] Hs Hok Hf) as L.
+    + simpl List.length. rewrite find_while_step_none. unfold annotate_at.
+      pose proof (leaf_found [] root 0 m x pre t post (CList (annotate_body [] root 0 m)) None [] Hs Hok Hf) as L.
       simpl in L. rewrite L. reflexivity.
     + simpl. rewrite stmt_id_annotate, erase_annotate. reflexivity.
   - apply find_view_of_while with (r := None) (log := []).
     + discriminate.
-    + simpl List.length. rewrite find_while_step_none. unfold annotate, annotate_at.
-      pose proof (leaf_notfound [] [] 0 m x (CList (annotate_body [] [] 0 m)) None [] Hs Hok Hf) as L.
+    + simpl List.length. rewrite find_while_step_none. unfold annotate_at.
+      pose proof (leaf_notfound [] root 0 m x (CList (annotate_body [] root 0 m)) None [] Hs Hok Hf) as L.
       simpl in L. rewrite L. reflexivity.
     + reflexivity.
 Qed.
@@ -744,23 +744,23 @@ Proof.
   reflexivity.
 Qed.
 
-Lemma c15_depth2_func : forall m x y pre n args body d r post,
+Lemma c15_depth2_func : forall root m x y pre n args body d r post,
     split_member x m = Some (pre, SFunc n args body d r, post) ->
     existsb is_func pre = false -> arg_lookup_class y args post = None ->
-    find_view [x; y] m = Ok (resolve [x; y] m).
+    find_view_at root [x; y] m = Ok (resolve_at root [x; y] m).
 Proof.
-  intros m x y pre n args body d r post Hs Hf Ha.
+  intros root m x y pre n args body d r post Hs Hf Ha.
   assert (Hlen : forall k : str, [x; y] <> [] ++ [k]) by (intros k; discriminate).
-  destruct (func_last_segment [x; y] [] [] 0 pre n args body d r post x y
-                              (CList (annotate m)) (last_of (annotate_body [] [] 0 pre) None) [] 1 Hlen Ha)
+  destruct (func_last_segment [x; y] [] root 0 pre n args body d r post x y
+                              (CList (annotate_at root m)) (last_of (annotate_body [] root 0 pre) None) [] 1 Hlen Ha)
     as [res [log' [H1 H2]]].
   apply find_view_of_while with (r := res) (log := log').
   - discriminate.
   - simpl List.length. rewrite find_while_step_more.
-    set (cur := CList (annotate m)) in *. unfold annotate, annotate_at.
-    rewrite (walk_to_member [x; y] x [y] [] [] 0 m pre _ post cur None [] Hs Hlen) by (discriminate || assumption).
+    set (cur := CList (annotate_at root m)) in *. unfold annotate_at.
+    rewrite (walk_to_member [x; y] x [y] [] root 0 m pre _ post cur None [] Hs Hlen) by (discriminate || assumption).
     exact H1.
-  - rewrite H2. unfold resolve. rewrite resolve_body_split, Hs. reflexivity.
+  - rewrite H2. unfold resolve_at. rewrite resolve_body_split, Hs. reflexivity.
 Qed.
 
 Lemma astmt_name_annotate : forall pname p c, astmt_name (annotate_stmt pname p c) = stmt_name c.
@@ -769,27 +769,27 @@ Proof. intros pname p c. destruct c; reflexivity. Qed.
 Lemma class_member_name : forall x n bs body d, is_member x (SClass n bs body d) = true -> n = x.
 Proof. intros x n bs body d H. simpl in H. apply str_eqb_eq in H. assumption. Qed.
 
-Lemma c15_depth2_class : forall m x y pre n bs body d post,
+Lemma c15_depth2_class : forall root m x y pre n bs body d post,
     split_member x m = Some (pre, SClass n bs body d, post) ->
     existsb is_func pre = false -> str_eqb x y = false -> leaf_lookup_class y body = None ->
-    find_view [x; y] m = Ok (resolve [x; y] m).
+    find_view_at root [x; y] m = Ok (resolve_at root [x; y] m).
 Proof.
-  intros m x y pre n bs body d post Hs Hf Hxy Hl.
+  intros root m x y pre n bs body d post Hs Hf Hxy Hl.
   destruct (split_member_some _ _ _ _ _ Hs) as [_ [Hmt _]].
   apply class_member_name in Hmt. subst n.
   destruct (leaf_lookup_facts _ _ Hl) as [Hok Hfb]. unfold before_member in Hfb.
   assert (Hlen : forall k : str, [x; y] <> [] ++ [k]) by (intros k; discriminate).
-  set (p1 := [] ++ [0 + List.length pre]).
-  assert (Hres : resolve [x; y] m = resolve_body y [] p1 0 body).
-  { unfold resolve. rewrite resolve_body_split, Hs. apply resolve_stmt_class. }
+  set (p1 := root ++ [0 + List.length pre]).
+  assert (Hres : resolve_at root [x; y] m = resolve_body y [] p1 0 body).
+  { unfold resolve_at. rewrite resolve_body_split, Hs. apply resolve_stmt_class. }
   assert (Hwalk : forall res log',
              step_result 1 [x; y]
                          (find_for [x; y] (annotate_body [x] p1 0 body) y [] (CList (annotate_body [x] p1 0 body))
                                    (Some (annotate_stmt [] p1 (SClass x bs body d))) []) = Ok (res, log') ->
-             find_while 3 [x; y] None (CList (annotate m)) [x; y] [] = Ok (res, log')).
+             find_while 3 [x; y] None (CList (annotate_at root m)) [x; y] [] = Ok (res, log')).
   { intros res log' H. rewrite find_while_step_more.
-    set (cur := CList (annotate m)). unfold annotate, annotate_at.
-    rewrite (walk_to_member [x; y] x [y] [] [] 0 m pre _ post cur None [] Hs Hlen) by (discriminate || assumption).
+    set (cur := CList (annotate_at root m)). unfold annotate_at.
+    rewrite (walk_to_member [x; y] x [y] [] root 0 m pre _ post cur None [] Hs Hlen) by (discriminate || assumption).
     fold p1. rewrite class_enter by exact Hlen. unfold step_result at 1.
     rewrite find_while_step_name; [exact H|].
     rewrite astmt_name_annotate. simpl. exact Hxy. }
@@ -826,50 +826,50 @@ Qed.
 Lemma not_func_no_posarg : forall z c, is_func c = false -> func_has_posarg z c = false.
 Proof. intros z c H. destruct c; simpl in *; try reflexivity; discriminate. Qed.
 
-Lemma c15_depth2_unresolved : forall m x y,
-    unresolved_head_class x y m = None -> resolve [x; y] m = None ->
-    find_view [x; y] m = Ok (resolve [x; y] m).
+Lemma c15_depth2_unresolved : forall root m x y,
+    unresolved_head_class x y m = None -> resolve_at root [x; y] m = None ->
+    find_view_at root [x; y] m = Ok (resolve_at root [x; y] m).
 Proof.
-  intros m x y H Hres. rewrite Hres.
+  intros root m x y H Hres. rewrite Hres.
   destruct (unresolved_head_facts _ _ _ H) as [Hf [Hax [Hcx Hy]]].
   assert (Hlen : forall k : str, [x; y] <> [] ++ [k]) by (intros k; discriminate).
   apply find_view_of_while with (r := None) (log := []); [discriminate | | reflexivity].
   simpl List.length. rewrite find_while_step_more.
-  set (cur := CList (annotate m)). unfold annotate, annotate_at.
-  assert (Hskip1 : forallb (askip [x; y] x [y]) (annotate_body [] [] 0 m) = true).
+  set (cur := CList (annotate_at root m)). unfold annotate_at.
+  assert (Hskip1 : forallb (askip [x; y] x [y]) (annotate_body [] root 0 m) = true).
   { apply forallb_annotate_body. intros c q Hin. apply askip_head; try assumption; try discriminate.
     - apply (existsb_In_false _ _ _ c Hf Hin).
     - apply (existsb_In_false _ _ _ c Hax Hin).
     - apply (existsb_In_false _ _ _ c Hcx Hin). }
-  assert (Hskip2 : forallb (askip [x; y] y []) (annotate_body [] [] 0 m) = true).
+  assert (Hskip2 : forallb (askip [x; y] y []) (annotate_body [] root 0 m) = true).
   { apply forallb_annotate_body. intros c q Hin.
     pose proof (existsb_In_false _ _ _ c Hy Hin) as Hc. simpl in Hc. apply orb_false_iff in Hc. destruct Hc as [H1 H2].
     apply askip_fall; try assumption.
     apply not_func_no_posarg. apply (existsb_In_false _ _ _ c Hf Hin). }
   rewrite find_for_skip_all by exact Hskip1. unfold step_result at 1.
-  destruct (last_of_annotate_body [] [] m 0 None) as [E|[c [q [Hin E]]]]; rewrite E.
-  - subst cur. rewrite find_while_step_none. unfold annotate, annotate_at.
+  destruct (last_of_annotate_body [] root m 0 None) as [E|[c [q [Hin E]]]]; rewrite E.
+  - subst cur. rewrite find_while_step_none. unfold annotate_at.
     rewrite find_for_skip_all by exact Hskip2. reflexivity.
   - subst cur. rewrite find_while_step_name.
-    + unfold annotate, annotate_at. rewrite find_for_skip_all by exact Hskip2. reflexivity.
+    + unfold annotate_at. rewrite find_for_skip_all by exact Hskip2. reflexivity.
     + rewrite astmt_name_annotate.
       pose proof (existsb_In_false _ _ _ c Hy Hin) as Hc. simpl in Hc. apply orb_false_iff in Hc. destruct Hc as [H1 H2].
       pose proof (existsb_In_false _ _ _ c Hf Hin) as Hfc.
       destruct c; simpl in *; try reflexivity; try discriminate. exact H2.
 Qed.
 
-Lemma c15_depth3 : forall m x y z pre n bs body d post pre' n' args body' d' r' post',
+Lemma c15_depth3 : forall root m x y z pre n bs body d post pre' n' args body' d' r' post',
     split_member x m = Some (pre, SClass n bs body d, post) -> existsb is_func pre = false ->
     split_member y body = Some (pre', SFunc n' args body' d' r', post') -> existsb is_func pre' = false ->
     arg_lookup_class z args post' = None ->
-    find_view [x; y; z] m = Ok (resolve [x; y; z] m).
+    find_view_at root [x; y; z] m = Ok (resolve_at root [x; y; z] m).
 Proof.
-  intros m x y z pre n bs body d post pre' n' args body' d' r' post' Hs Hf Hs' Hf' Ha.
+  intros root m x y z pre n bs body d post pre' n' args body' d' r' post' Hs Hf Hs' Hf' Ha.
   destruct (split_member_some _ _ _ _ _ Hs) as [_ [Hmt _]].
   apply class_member_name in Hmt. subst n.
   assert (Hlen : forall k : str, [x; y; z] <> [] ++ [k]) by (intros k; discriminate).
   assert (Hlen' : forall k : str, [x; y; z] <> [x] ++ [k]) by (intros k; discriminate).
-  set (p1 := [] ++ [0 + List.length pre]).
+  set (p1 := root ++ [0 + List.length pre]).
   destruct (func_last_segment [x; y; z] [x] p1 0 pre' n' args body' d' r' post' y z
                               (CList (annotate_body [x] p1 0 body))
                               (last_of (annotate_body [x] p1 0 pre') (Some (annotate_stmt [] p1 (SClass x bs body d))))
@@ -878,27 +878,27 @@ Proof.
   apply find_view_of_while with (r := res) (log := log').
   - discriminate.
   - simpl List.length. rewrite find_while_step_more.
-    set (cur := CList (annotate m)). unfold annotate, annotate_at.
-    rewrite (walk_to_member [x; y; z] x [y; z] [] [] 0 m pre _ post cur None [] Hs Hlen) by (discriminate || assumption).
+    set (cur := CList (annotate_at root m)). unfold annotate_at.
+    rewrite (walk_to_member [x; y; z] x [y; z] [] root 0 m pre _ post cur None [] Hs Hlen) by (discriminate || assumption).
     fold p1. rewrite class_enter by exact Hlen. unfold step_result at 1.
     rewrite find_while_step_more.
     rewrite (walk_to_member [x; y; z] y [z] [x] p1 0 body pre' _ post' _ _ [] Hs' Hlen') by (discriminate || assumption).
     exact H1.
-  - rewrite H2. unfold resolve. rewrite resolve_body_split, Hs. fold p1.
+  - rewrite H2. unfold resolve_at. rewrite resolve_body_split, Hs. fold p1.
     rewrite resolve_stmt_class, resolve_body_split, Hs'. reflexivity.
 Qed.
 
-Lemma c15_depth0 : forall m, find_view [] m = Ok (resolve [] m).
+Lemma c15_depth0 : forall root m, find_view_at root [] m = Ok (resolve_at root [] m).
 Proof.
-  intros m. unfold find_view, find_in_ast, find_in_ast_log. simpl.
-  unfold erase, annotate, annotate_at. rewrite erase_annotate_body. reflexivity.
+  intros root m. unfold find_view_at, find_in_ast, find_in_ast_log. simpl.
+  unfold erase, annotate_at. rewrite erase_annotate_body. reflexivity.
 Qed.
 
-Theorem C15_partial_lemma : forall m q, guard_C15 m q = true -> C15_find_at m q.
+(* for every root the positions are counted from *)
+Theorem C15_partial_at : forall root m q,
+    finding_class_C15 m q = None -> find_view_at root q m = Ok (resolve_at root q m).
 Proof.
-  intros m q H. unfold guard_C15 in H. apply andb_true_iff in H. destruct H as [_ H].
-  unfold C15_find_at.
-  destruct (finding_class_C15 m q) eqn:E; [discriminate|]. clear H.
+  intros root m q E.
   destruct q as [|x [|y [|z [|w q]]]]; simpl in E.
   - apply c15_depth0.
   - apply c15_depth1. assumption.
@@ -908,11 +908,11 @@ Proof.
       * destruct (existsb is_func pre) eqn:Hf; [discriminate|].
         destruct (str_eqb x y) eqn:Hxy; [discriminate|]. eapply c15_depth2_class; eassumption.
       * destruct (existsb is_func pre); discriminate.
-      * apply c15_depth2_unresolved; [assumption|]. unfold resolve. rewrite resolve_body_split, Hs. reflexivity.
-      * apply c15_depth2_unresolved; [assumption|]. unfold resolve. rewrite resolve_body_split, Hs. reflexivity.
-      * apply c15_depth2_unresolved; [assumption|]. unfold resolve. rewrite resolve_body_split, Hs. reflexivity.
-      * apply c15_depth2_unresolved; [assumption|]. unfold resolve. rewrite resolve_body_split, Hs. reflexivity.
-    + apply c15_depth2_unresolved; [assumption|]. unfold resolve. rewrite resolve_body_split, Hs. reflexivity.
+      * apply c15_depth2_unresolved; [assumption|]. unfold resolve_at. rewrite resolve_body_split, Hs. reflexivity.
+      * apply c15_depth2_unresolved; [assumption|]. unfold resolve_at. rewrite resolve_body_split, Hs. reflexivity.
+      * apply c15_depth2_unresolved; [assumption|]. unfold resolve_at. rewrite resolve_body_split, Hs. reflexivity.
+      * apply c15_depth2_unresolved; [assumption|]. unfold resolve_at. rewrite resolve_body_split, Hs. reflexivity.
+    + apply c15_depth2_unresolved; [assumption|]. unfold resolve_at. rewrite resolve_body_split, Hs. reflexivity.
   - destruct (split_member x m) as [[[pre t] post]|] eqn:Hs; [|discriminate].
     destruct t; try discriminate.
     destruct (existsb is_func pre) eqn:Hf; [discriminate|].
@@ -921,4 +921,11 @@ Proof.
     destruct (existsb is_func pre') eqn:Hf'; [discriminate|].
     eapply c15_depth3; eassumption.
   - discriminate.
+Qed.
+
+Theorem C15_partial_lemma : forall m q, guard_C15 m q = true -> C15_find_at m q.
+Proof.
+  intros m q H. unfold guard_C15 in H. apply andb_true_iff in H. destruct H as [_ H].
+  unfold C15_find_at, find_view, resolve.
+  destruct (finding_class_C15 m q) eqn:E; [discriminate|]. apply C15_partial_at. assumption.
 Qed.
